@@ -277,6 +277,13 @@ theorem sumN_bump (cnt : List Nat) (l : List ExtRef) (h : ∀ e ∈ l, e.frame <
     have := key cnt e.frame (cnt.getD e.frame 0 + 1) hlt
     simp only [List.length_cons]; omega
 
+/-- Reported short IDs carry 0 or 1 payload byte. -/
+theorem iterAll_short {it : Iter} {l : List ExtRef} {s : Step} (hI : Inv it) (h : iterAll it = .ok (l, s)) :
+    ∀ e ∈ l, e.id < 32 → e.len ≤ 1 := by
+  obtain ⟨l', s', h', _, hext⟩ := iterAll_inv it hI
+  rw [h] at h'; cases h'
+  intro e he; exact (hext e he).2.2.2.2.2
+
 /-- All readers of src/extensions.c agree on every byte string. -/
 theorem scan_agree (d : Bytes) (hb : BytesOk d) (nbFrames : Nat) (hnf : nbFrames ≤ 48) :
     ∃ (it : Iter) (l : List ExtRef) (s : Step),
@@ -303,7 +310,7 @@ theorem scan_agree (d : Bytes) (hb : BytesOk d) (nbFrames : Nat) (hnf : nbFrames
     have := hext e he
     unfold ExtOk at this
     rw [hnb', hlen] at this
-    exact this
+    exact ⟨this.1, this.2.1, this.2.2.1, this.2.2.2.1, this.2.2.2.2.1⟩
   have hfr : ∀ e ∈ l, e.frame < (List.replicate it.nbFrames 0).length := by
     intro e he; simp only [List.length_replicate, hnb']; exact (hext' e he).2.2.1
   have hbump : bump (List.replicate nbFrames 0) l = (List.range nbFrames).map (frameCount l) := by
